@@ -277,8 +277,10 @@ func saslRawCases() []job {
 	return out
 }
 
-// transportAPIs is the sample of APIs sent through the Transport.
-var transportAPIs = []int16{18, 3, 10, 1, 0, 2, 11, 14, 9, 12, 19, 20, 16, 22, 42, 17, 36}
+// transportAPIs is the sample of APIs sent through the Transport.  (CreateTopics
+// is left out: after a successful response the Transport waits for the topics
+// to show up in the metadata until the context ends.)
+var transportAPIs = []int16{18, 3, 10, 1, 0, 2, 11, 14, 9, 12, 20, 16, 22, 42, 17, 36}
 
 // TestTransport sends a sample of the frames of TestMutations through
 // kafka.Transport.RoundTrip, and the raw SASL response length through both
@@ -292,12 +294,7 @@ func TestTransport(t *testing.T) {
 	seed := ev.Seed()
 	shard, shards := shardOf()
 	p := getPool()
-	defer func() {
-		starts, deaths, restarts := p.stats()
-		ev.Count("worker_starts", starts)
-		ev.Count("worker_deaths", deaths)
-		ev.Count("worker_restarts", restarts)
-	}()
+	defer recordPoolStats(p)
 
 	entryFor := func(a *refcodec.API, ver int16) string {
 		switch {
@@ -341,12 +338,14 @@ func TestTransport(t *testing.T) {
 	// unmutated frames: must be served and decoded, within the bound
 	reachable := map[*corpusFrame]bool{}
 	byCase := map[string]*corpusFrame{}
+	for _, cf := range corpus {
+		byCase[fmt.Sprintf("%s/%d", cf.API.Name, cf.Ver)] = cf
+	}
 	jobs := make(chan job, 16)
 	go func() {
 		defer close(jobs)
 		for _, cf := range corpus {
 			c := mutCase{API: cf.API.Name, Key: cf.API.Key, Version: cf.Ver, Entry: entryFor(cf.API, cf.Ver), Variant: cf.Variant, Seed: cf.Seed, Field: -1, Class: "unmutated", Splice: "inplace", Supply: "exact", FrameLen: len(cf.Frame)}
-			byCase[fmt.Sprintf("%s/%d", c.API, c.Version)] = cf
 			jobs <- job{c: c, stream: cf.Frame}
 		}
 		if shard == 0 {
@@ -455,6 +454,10 @@ func TestTransport(t *testing.T) {
 			t.Fatalf("harness: %v", a.err)
 		}
 		frames++
+		if a.r.Micros > 1000000 {
+			ev.Count("transport_slow_cases", 1)
+			ev.SampleTagged("transport_slow", 3, map[string]any{"api": c.API, "version": c.Version, "entry": c.Entry, "kind": c.Kind, "class": c.Class, "field": c.Path, "outcome": a.r.Outcome, "msg": a.r.Msg, "micros": a.r.Micros})
+		}
 		// bytes received = everything the handler delivered on all connections
 		supplied := a.j.stream
 		if a.r.Consumed > len(supplied) && c.Entry != "sasl-raw" {
